@@ -5,11 +5,11 @@ EXTENDS BED, Json, IOUtils, TLC
 Trace == ndJsonDeserialize(IOEnv.TRACE_FILE)
 Ok(b, name) == IF b THEN "ok" ELSE name
 (* ["bed", exons, cds (EMPTY = non-coding / feature), off (chunk start, 0 in chromosome mode), chunkMode, expectedName,
-    outcome <<"v", record>>] *)
+    outcome <<"v", record>>, mirror (-1, or the end of a MINUS-strand chunk window: BED!ToChunk)] *)
 VBed(ev) ==
-  LET ex == ev[2] cds == ev[3] off == ev[4] o == ev[7] IN
+  LET ex == ev[2] cds == ev[3] off == ev[4] o == ev[7] mir == ev[8] IN
   IF ~IsVal(o) THEN "bed:returns"
-  ELSE LET r == o[2] want == [i \in DOMAIN ex[1] |-> <<ex[1][i][1] - off, ex[1][i][2] - off>>] IN
+  ELSE LET r == o[2] want == ChunkBlocks(ex[1], off, mir) IN
     IF r[10] # Len(r[11]) \/ r[10] # Len(r[12]) THEN "block-count"
     ELSE IF r[12][1] # 0 THEN "first-start-zero"
     ELSE IF ~(\A i \in 1..(r[10] - 1) : r[12][i] <= r[12][i + 1]) THEN "starts-ascending"
@@ -17,10 +17,13 @@ VBed(ev) ==
     ELSE IF ~((r[7] = 0 /\ r[8] = 0) \/ (r[2] <= r[7] /\ r[7] <= r[8] /\ r[8] <= r[3])) THEN "thick-inside"
     ELSE IF ~Valid(r) THEN "bed-valid"
     ELSE IF Decode(r)[1] # want THEN "decode-blocks"
-    ELSE IF r[6] # St(ex) THEN "decode-strand"
+    ELSE IF r[6] # ChunkSt(St(ex), mir) /\ ~(mir >= 0 /\ r[6] = St(ex)) THEN "decode-strand"
     ELSE IF r[4] # ev[6] THEN "decode-name"
-    ELSE IF IsEmptyLoc(cds) THEN Ok(r[7] = 0 /\ r[8] = 0, "noncoding-thick-zero")
-    ELSE Ok(r[7] = MinStart(cds) - off /\ r[8] = MaxEnd(cds) - off, "decode-cds-bounds")
+    ELSE IF IsEmptyLoc(cds) /\ ~(r[7] = 0 /\ r[8] = 0) THEN "noncoding-thick-zero"
+    ELSE IF ~IsEmptyLoc(cds) /\ ~(r[7] = ChunkLo(cds, off, mir) /\ r[8] = ChunkHi(cds, off, mir)) THEN "decode-cds-bounds"
+    \* named deviation (BEDMC_known): the chromosome strand is written on a mirrored chunk too
+    ELSE IF r[6] # ChunkSt(St(ex), mir) THEN "decode-strand:minus-chunk-keeps-chromosome-strand"
+    ELSE "ok"
 Verdict(ev) == CASE ev[1] = "bed" -> VBed(ev) [] OTHER -> "unknown-op"
 Bad == {i \in DOMAIN Trace : Verdict(Trace[i]) # "ok"}
 ASSUME \A i \in Bad : PrintT(<<"BAD", i, Verdict(Trace[i])>>)
